@@ -841,10 +841,11 @@ fn embed(c: &mut Cfg, other: &Cfg) -> usize {
 
 /// Union of two family grammars under distinct leading tags.
 fn fam_compose(rng: &mut Rng) -> Cfg {
+    let big = rng.chance(1, 6);
     let mut c = Cfg::new("compose");
     let s = c.nt("Root");
     c.start = s;
-    let k = rng.range(2, 3);
+    let k = if big { rng.range(4, 7) } else { rng.range(2, 3) };
     for i in 0..k {
         let which = rng.below(12);
         let sub = base_family(rng, which);
@@ -852,7 +853,7 @@ fn fam_compose(rng: &mut Rng) -> Cfg {
         let st = embed(&mut c, &sub);
         c.rule(s, vec![T(tag), N(st)]);
     }
-    c.family = "compose".into();
+    c.family = if big { "compose-big".into() } else { "compose".into() };
     c
 }
 
